@@ -335,7 +335,7 @@ impl<S: Spec> LifeMachine<S> {
         let r = &mut self.a.r;
         let idx = match guard(|| f(r, &v)) {
             Ok(i) => i,
-            Err(p) if self.e.zst && p.contains("capacity overflow") => {
+            Err(p) if self.e.zst && crate::engine::exhaustion(&p) => {
                 // more than usize::MAX zero-sized elements: resource exhaustion, not in the model
                 return Step::Refused(p);
             }
@@ -520,7 +520,7 @@ impl<S: Spec> Machine for LifeMachine<S> {
                 let f = self.e.reserve_forms[form].f;
                 let r = &mut self.a.r;
                 if let Err(p) = guard(|| f(r, &b)) {
-                    if self.e.zst && p.contains("capacity overflow") {
+                    if self.e.zst && crate::engine::exhaustion(&p) {
                         return Step::Refused(p);
                     }
                     return Step::Violation(format!("{what} panicked: {p}"));
@@ -535,7 +535,7 @@ impl<S: Spec> Machine for LifeMachine<S> {
                 let sib = self.sibling(src);
                 let r = &mut self.a.r;
                 if let Err(p) = guard(|| r.reserve_regions(std::iter::once(&sib))) {
-                    if self.e.zst && p.contains("capacity overflow") {
+                    if self.e.zst && crate::engine::exhaustion(&p) {
                         return Step::Refused(p);
                     }
                     return Step::Violation(format!("{what} panicked: {p}"));
@@ -572,7 +572,7 @@ impl<S: Spec> Machine for LifeMachine<S> {
                 }
                 match merged {
                     Ok(m) => self.a = Side { r: m, issued: vec![] },
-                    Err(p) if self.e.zst && p.contains("capacity overflow") => return Step::Refused(p),
+                    Err(p) if self.e.zst && crate::engine::exhaustion(&p) => return Step::Refused(p),
                     Err(p) => return Step::Violation(format!("{what} panicked: {p}")),
                 }
                 self.count = 0;
